@@ -26,3 +26,8 @@ Fixpoint run_ticks (rows : list row) (ticks : list (list (N * N))) : list N :=
   end.
 Definition chk_ticks (c : list row * list (list (N * N)) * list N) : bool :=
   let '(rows, ticks, obs) := c in list_eqb N.eqb (run_ticks rows ticks) obs.
+
+(* observed: was the replica table rebuilt (the newly listed copy observed) after the node installed a cluster map with
+   revision `new` while the mitigation was using `old`? *)
+Definition chk_cfgwatch (c : (Z * Z) * (Z * Z) * bool) : bool :=
+  let '(old, new, adopted) := c in Bool.eqb (config_newer old new) adopted.
